@@ -1144,7 +1144,10 @@ func (t *tlock) handle(cs *connState) message {
 // walkOne walks zero or one path elements.
 //
 // The slice passed as qids is append and returned.
-func walkOne(qids []QID, from File, names []string, getattr bool) ([]QID, File, AttrMask, Attr, error) {
+//
+// lockNew, if not nil, is called once the new File exists and before it is
+// used; it locks the path node of the new File and returns the unlock function.
+func walkOne(qids []QID, from File, names []string, getattr bool, lockNew func() func()) ([]QID, File, AttrMask, Attr, error) {
 	nwname := len(names)
 	if nwname > 1 {
 		// We require exactly zero or one elements.
@@ -1172,7 +1175,13 @@ func walkOne(qids []QID, from File, names []string, getattr bool) ([]QID, File, 
 			break
 		}
 		if getattr {
-			_, valid, attr, err = sf.GetAttr(AttrMaskAll)
+			// GetAttr is a read operation on the new File's own path.
+			func() {
+				if lockNew != nil {
+					defer lockNew()()
+				}
+				_, valid, attr, err = sf.GetAttr(AttrMaskAll)
+			}()
 			if err != nil {
 				// Don't leak the file.
 				sf.Close()
@@ -1219,7 +1228,7 @@ func doWalk(cs *connState, ref *fidRef, names []string, getattr bool) (qids []QI
 			}
 
 			// Clone the single element.
-			qids, sf, valid, attr, err = walkOne(nil, ref.file, nil, getattr)
+			qids, sf, valid, attr, err = walkOne(nil, ref.file, nil, getattr, nil)
 			if err != nil {
 				return err
 			}
@@ -1273,7 +1282,12 @@ func doWalk(cs *connState, ref *fidRef, names []string, getattr bool) (qids []QI
 
 			// Pass getattr = true to walkOne since we need the file type for
 			// newRef.
-			qids, sf, valid, attr, err = walkOne(qids, walkRef.file, names[i:i+1], true)
+			qids, sf, valid, attr, err = walkOne(qids, walkRef.file, names[i:i+1], true, func() func() {
+				// The child is deeper than walkRef, whose node we hold.
+				child := walkRef.pathNode.pathNodeFor(names[i])
+				child.opMu.RLock()
+				return child.opMu.RUnlock
+			})
 			if err != nil {
 				return err
 			}
